@@ -294,6 +294,8 @@ impl<V: VringT<GM> + Clone + Send + Sync + 'static, B: Wrap<V>> Run<V, B> {
         if thread >= self.nthreads {
             return Val::s("no-such-thread");
         }
+        // an answer that arrived after its request had been given up must not be taken for this one's
+        while self.rx.try_recv().is_ok() {}
         self.sh.lock().unwrap().cmds.insert(thread, cmd);
         let _ = self.probes[thread].write(1);
         // a busy machine must not be mistaken for a worker that has stopped: the first wait is long; a worker that
@@ -324,8 +326,14 @@ impl<V: VringT<GM> + Clone + Send + Sync + 'static, B: Wrap<V>> Run<V, B> {
         }
     }
     fn sync_all(&mut self) {
-        for t in 0..self.nthreads {
-            let _ = self.worker_cmd(t, Cmd::Sync);
+        // two rounds: epoll hands the ready descriptors of one wake-up over in the order of its ready list, in which a
+        // level-triggered probe descriptor may still sit from its previous delivery - ahead of a kick descriptor that became
+        // ready before this probe was written.  The worker finishes the whole batch before it waits again, so once the
+        // second probe is answered everything that was ready before the first one has been dispatched.
+        for _ in 0..2 {
+            for t in 0..self.nthreads {
+                let _ = self.worker_cmd(t, Cmd::Sync);
+            }
         }
     }
     fn evfd(&mut self, id: u64) -> &EventFd {
